@@ -1035,8 +1035,11 @@ impl<'a> Visitor<'a> {
             return Ok(None);
         }
 
-        let message = self.visit_expr(debug_rule.value)?;
-        let message = message.inspect(debug_rule.span)?;
+        let message = match self.visit_expr(debug_rule.value)? {
+            // a string is logged as its text, everything else as `inspect()` prints it
+            Value::String(text, ..) => text,
+            value => value.inspect(debug_rule.span)?,
+        };
 
         let loc = self.map.look_up_span(debug_rule.span);
         self.options.logger.debug(loc, message.as_str());
@@ -1583,8 +1586,11 @@ impl<'a> Visitor<'a> {
 
     fn visit_warn_rule(&mut self, warn_rule: AstWarn) -> SassResult<()> {
         if self.warnings_emitted.insert(warn_rule.span) {
-            let value = self.visit_expr(warn_rule.value)?;
-            let message = value.to_css_string(warn_rule.span, self.options.is_compressed())?;
+            let message = match self.visit_expr(warn_rule.value)? {
+                // a string is logged as its text, not as the quoted CSS string
+                Value::String(text, ..) => text,
+                value => value.to_css_string(warn_rule.span, self.options.is_compressed())?,
+            };
             self.emit_warning(&message, warn_rule.span);
         }
 
